@@ -33,16 +33,17 @@ def RULE(tier):
     return (
         f"A: da.percentile on EVERY 1-d array of length 1..{n} over 4 levels (duplicates) x EVERY chunking (plus every chunking with zero-length "
         f"chunks, <= 3 chunks, n <= 3) x every non-empty sorted sub-vector of {QFULL} (31; "
-        + ("n >= 5: the 8 listed in QSUB, n = 6 with methods linear/lower on int data" if tier == "thorough" else "n = 4: the first 6 listed in QSUB")
-        + ") and scalar q x methods linear/lower/higher/nearest/midpoint x dtypes i8, f8 (" + ("f8 in full for n <= 4, linear only for n = 5, none for n = 6" if tier == "thorough" else "f8 in full for n <= 2, linear x QSUB for n = 3, none for n = 4") + ") and f8 with levels (-inf, a, b, +inf) for "
+        + ("n >= 5: the 8 listed in QSUB, n = 6 with methods linear/lower on int data" if tier == "thorough" else "n = 4: the first 4 listed in QSUB")
+        + ") and scalar q, plus every pair of interior multiples of 12.5 (21 pairs of close q values) on every multi-chunk chunking of n <= " + ("4" if tier == "thorough" else "3") + " x methods linear/lower/higher/nearest/midpoint x dtypes i8, f8 (" + ("f8 in full for n <= 4, linear only for n = 5, none for n = 6" if tier == "thorough" else "f8 in full for n <= 2, linear x QSUB for n = 3, none for n = 4") + ") and f8 with levels (-inf, a, b, +inf) for "
         "lower/higher/nearest: bounds, monotone in q, end-points. B: da.nanpercentile along each axis vs np.nanpercentile on 1-d (n <= 4) and "
         "2-d (2,2),(2,3),(3,2) arrays with EVERY NaN placement x every chunking x q in {0, 50, 100, 30, [25,75], [0,50,100]} x keepdims x "
         "methods (and every NaN/+inf placement on (2,2)" + (", (2,3) and (5,)" if tier == "thorough" else "") + " with lower/higher/nearest). non-trivial = >= 2 chunks (A) / >= 2 chunks along the reduced axis (B)."
     )
 
 
-QSUB = ((0, 25, 50, 75, 100), (0, 100), (50,), (25, 75), (0,), (100,), (0, 50, 100), (25, 50, 75))  # quick, n = 4: the first 6
+QSUB = ((0, 25, 50, 75, 100), (0, 100), (50,), (25, 75), (0,), (100,), (0, 50, 100), (25, 50, 75))  # quick, n = 4: the first 4
 QB = (0, 50, 100, 30, (25, 75), (0, 50, 100))
+QPAIRS = list(itertools.combinations([12.5 * i for i in range(1, 8)], 2))  # 21 pairs of close / distant interior percentiles
 
 
 def all_q():
@@ -61,6 +62,9 @@ def shards(tier):
         nparts = 1 if k <= 2 else (4 if k == 3 else 12 if k == 4 else 24 if k == 5 else 48)
         for part in range(nparts):
             (out if k <= 4 else big).append(("pct", k, part, nparts))
+    for k, nparts in ((2, 1), (3, 4)) + (((4, 12),) if tier == "thorough" else ()):
+        for part in range(nparts):
+            out.append(("pctpair", k, part, nparts))
     out.append(("pctz", 0, 0, 1))
     out.append(("pctinf", 0, 0, 1))
     for shp in [(1,), (2,), (3,), (4,), (2, 2)]:
@@ -96,7 +100,7 @@ def cases_of(shard, tier):
     if kind == "pct":
         _, n, part, nparts = shard
         chs = [(c,) for c in enums.compositions(n)]
-        qs = all_q() if (n < NMAX[tier] or tier == "thorough") else list(QSUB[:6])
+        qs = all_q() if (n < NMAX[tier] or tier == "thorough") else list(QSUB[:4])
         methods = METHODS
         if tier == "thorough" and n >= 5:
             qs = list(QSUB)  # thorough, n >= 5: the 8 QSUB vectors; n = 6: methods linear/lower on int data
@@ -109,6 +113,13 @@ def cases_of(shard, tier):
                     for m in ("linear", "nearest"):
                         yield ("pct", n, ch, tuple(data), "i8", 50, m)  # scalar q -> 0-d result
                         yield ("pct", n, ch, tuple(data), "i8", 0, m)
+    elif kind == "pctpair":
+        # close q values: every pair from the interior grid of multiples of 12.5, so that two requested percentiles can fall into the
+        # same gap between adjacent merged summary points (monotonicity is then judged between neighbours inside one gap)
+        _, n, part, nparts = shard
+        chs = [(c,) for c in enums.compositions(n) if len(c) >= 2]
+        datas = [d for i, d in enumerate(itertools.product(range(4), repeat=n)) if i % nparts == part]
+        yield from pct_cases(n, chs, tier, datas=datas, dtypes=("i8",), qs=QPAIRS)
     elif kind == "pctz":
         for n in (1, 2, 3):
             chs = [(c,) for c in enums.compositions_with_zeros(n, 3) if 0 in c and len(c) > 1]
